@@ -34,6 +34,8 @@ def parse_script(s):
             out.append(("acc", int(t[1]), int(t[2]), parse_disc(t[3])))
         elif t[0] == "down":
             out.append(("down", int(t[1])))
+        elif t[0] == "predisc":
+            out.append(("predisc",))
     return out
 
 
@@ -127,7 +129,7 @@ def run_real(line):
 
     def disc_flag(which):
         it = cur_item()
-        if it is None or it[0] == "down":
+        if it is None or it[0] in ("down", "predisc"):
             return False
         return it[-1][which]
 
@@ -140,6 +142,14 @@ def run_real(line):
     def on_disconnect(cl, ud, rc, props=None):
         ev.append(f"on_disconnect:{int(rc) if isinstance(rc, int) else (0 if rc is None else rc.value)}@{rel()}")
         if disc_flag("d"):
+            ev.append(f"disconnect()@{rel()}")
+            cl.disconnect()
+
+    def on_pre_connect(cl, ud):
+        # the application gives up inside on_pre_connect of the attempt the next script item stands for
+        nxt = script[idx["i"] + 1] if idx["i"] + 1 < len(script) else None
+        if nxt is not None and nxt[0] == "predisc":
+            idx["i"] += 1
             ev.append(f"disconnect()@{rel()}")
             cl.disconnect()
 
@@ -159,6 +169,7 @@ def run_real(line):
     c.on_connect = on_connect
     c.on_disconnect = on_disconnect
     c.on_connect_fail = on_connect_fail
+    c.on_pre_connect = on_pre_connect
     c.connect_async("broker", 1883, 0)
     w.max_select = 20000
     try:
@@ -191,7 +202,9 @@ class LFStream:
             items = []
             for k in range(n):
                 r = rng.random()
-                if r < 0.3:
+                if r < 0.04:
+                    items.append("predisc")
+                elif r < 0.3:
                     items.append(f"refuse:{rand_disc(rng, 0.08)}")
                 elif r < 0.5:
                     items.append(f"eof:{rng.choice([0, 1000, 2000, 500, 3000])}:{rand_disc(rng, 0.08)}")
